@@ -106,6 +106,9 @@ func genMap(rng *rand.Rand, maxLen int, n int) map[string]string {
 		k := fmt.Sprintf("%d", i) + randBytes(rng, kl)
 		m[k] = randBytes(rng, vl)
 	}
+	if n > 0 && rng.Intn(5) == 0 { // a zero-length key is a valid string of the protocol
+		m[""] = randBytes(rng, pick(rng, 0, 1, 5))
+	}
 	return m
 }
 
